@@ -292,6 +292,8 @@ def coq_term(c, o):
         if 'panic' in o:
             return '%s %s %s true 0 [] 0' % (ctor, cz(c['v']), clist(c['buf']))
         return '%s %s %s false %s %s %s' % (ctor, cz(c['v']), clist(c['buf']), cz(o['n']), clist(o['buf']), cz(o['len']))
+    if 'panic' in o:
+        return 'DecPanic %s %s' % (cb(c['op'] == 'ltf8dec'), clist(c['b']))
     ctor = 'DecI' if c['op'] == 'itf8dec' else 'DecL'
     return '%s %s %s %s %s' % (ctor, clist(c['b']), cz(o['v']), cz(o['n']), cb(o['ok']))
 
@@ -336,8 +338,8 @@ def oracle(c, o):
 
 
 class BigSet(set):
-    """Distinct non-trivial inputs: explicit keys plus the values swept inside the Go harness
-    (every swept int32 is distinct; random batches are counted by their draws)."""
+    """Distinct non-trivial inputs: explicit keys plus the int32 values swept inside the Go harness
+    (size of the union of the swept intervals; random batches are not counted here)."""
     extra = 0
 
     def __len__(self):
@@ -394,6 +396,7 @@ def run(res, rng, tier):
     jobs_obs = core.run_harness('c20', jobs, case_timeout='3000s', timeout=7200)
     bulk = {}
     extra_cases = []
+    swept = []
     for j, o in zip(jobs, jobs_obs):
         d = bulk.setdefault(j['op'], dict(checked=0, nbad=0))
         if 'checked' not in o:
@@ -402,7 +405,8 @@ def run(res, rng, tier):
         d['checked'] += o['checked']
         d['nbad'] += o['nbad']
         res.evaluations += o['checked']
-        res.nontrivial.extra += o['checked']
+        if j['op'] == 'sweep32':
+            swept.append((j['lo'], j['hi']))
         res.count('%s/in-harness' % j['op'], o['checked'])
         unre = []
         for bad in (o.get('bad') or []):
@@ -415,6 +419,16 @@ def run(res, rng, tier):
                 unre.append(bad)
         for bad in unre:
             res.failures.append(dict(sig='%s:bulk' % bad['op'], what='in-harness reference check: ' + bad['what'], case=bad, observed=bad))
+    # distinct swept int32 values: size of the union of the swept intervals (windows may overlap);
+    # random batches may repeat values and are counted as evaluations only
+    end = None
+    for lo, hi in sorted(swept):
+        if end is None or lo > end:
+            res.nontrivial.extra += hi - lo
+            end = hi
+        elif hi > end:
+            res.nontrivial.extra += hi - end
+            end = hi
     res.extra['bulk_checks'] = bulk
     for c, o in extra_cases:
         cases.append(c)
@@ -435,14 +449,21 @@ def run(res, rng, tier):
             key = (op, tuple(c['b']))
             res.count('%s/len=%d/ok=%s' % (op, len(c['b']), o.get('ok')))
         res.nontrivial.add(key)
-        f = oracle(c, o)
+        if 'hang' in o or 'crash' in o or 'bad_case' in o or 'garbled' in o:
+            res.failures.append(dict(sig=op + (':hang' if 'hang' in o else ':crash'), what='the call did not complete in the harness', case=c,
+                                     observed={k: v for k, v in o.items() if k != 'stack'}))
+            continue
+        try:
+            f = oracle(c, o)
+            term = coq_term(c, o)
+        except (KeyError, TypeError, IndexError) as e:
+            res.failures.append(dict(sig=op + ':malformed-observation', what='observation lacks a field: %r' % (e,), case=c,
+                                     observed={k: v for k, v in o.items() if k != 'stack'}))
+            continue
         if f:
             res.failures.append(dict(sig=f[0], what=f[1], case=c, observed={k: v for k, v in o.items() if k != 'stack'}))
-        if 'hang' in o or 'crash' in o or 'bad_case' in o or 'garbled' in o:
-            res.corr_bad.append(dict(case=c, obs=o))
-            continue
-        terms.append((c, o, coq_term(c, o)))
-    bad, err = core.coq_mismatches(HEADER, 'c20case', 'c20_agree', [t[2] for t in terms], 'c20', shard=400 if tier == 'quick' else 1500)
+        terms.append((c, o, term))
+    bad, err = core.coq_mismatches(HEADER, 'c20case', 'c20_agree', [t[2] for t in terms], 'c20', shard=800 if tier == 'quick' else 1500)
     if err:
         res.corr_bad.append(dict(error=err))
     for i in bad:
@@ -473,7 +494,7 @@ def run(res, rng, tier):
                 'scripts of 1..7 errorReader calls (itf8, ltf8, itf8slice) over concatenated canonical and over-long encodings, cut at arbitrary '
                 'offsets or followed by junk, four ways of chunking the source, EOF or a fault at the end; '
                 'a case is distinct by (op, value, buffer length), (op, bytes) or (bytes, tail, script); all are non-trivial (every one runs codec arithmetic). '
-                'In-harness bulk checks against the reference codec count one evaluation per value: '
+                'In-harness bulk checks against the reference codec count one evaluation per value (distinct: the size of the union of the swept int32 intervals; a swept value that also occurs in an explicit case is a different case, its destination buffer differs): '
                 + ('all 2^32 int32 values' if tier != 'quick' else 'every int32 within 2^15 of each length-class boundary and four random windows of 2^18')
                 + ', random int64 uniform over the nine length classes, random byte strings decoded by both codecs.')
     res.samples = [dict(case=c, observed={k: v for k, v in o.items() if k != 'stack'}) for c, o in list(zip(cases, obs))[:3] + list(zip(cases, obs))[-2:]]
